@@ -477,8 +477,9 @@ def parsed_table(lines):
 
 
 def write(ctx, lines):
+    # four file names in rotation, rewritten from case to case: a path names what the file holds NOW
     _COUNTER[0] += 1
-    p = os.path.join(ctx.tmpdir(), f's{_COUNTER[0]}.pdb')
+    p = os.path.join(ctx.tmpdir(), f's{_COUNTER[0] % 4}.pdb')
     with open(p, 'w') as f:
         f.write('\n'.join(lines) + '\n')
     return p
